@@ -629,9 +629,15 @@ let oname_str = function
 
 exception Unsupported of string
 
+let saw_lazy = ref false and saw_keep = ref false
 let hops_of_line (line : string) : hop list =
   let (w, keeps) = strip_keep (split_ws line) in
   let keeps = List.map (fun x -> nat_of_int (int_of_string x)) keeps in
+  if keeps <> [] then saw_keep := true;
+  (match w with ("hold_lazy" | "accum_lazy" | "collect_lazy") :: _ -> saw_lazy := true | _ -> ());
+  (* an unforced thunk of a mapped / lifted cell shares the user function with the node: with captured handles AND lazies
+     in one program the function's handles can outlive the node that declares them - outside the model *)
+  if !saw_lazy && !saw_keep then raise (Unsupported "lazies together with captured handles");
   let n x = nat_of_int (int_of_string x) in
   let nofun f = if String.length f >= 4 && String.sub f 0 4 = "sel:" then raise (Unsupported "function capturing handles") in
   match w with
@@ -648,13 +654,13 @@ let hops_of_line (line : string) : hop list =
   | "snapshot" :: h :: s :: _ :: cs when cs <> [] -> [HDef (n h, PSnapshot, n s :: List.map n cs, keeps)]
   | ["snapshot1"; h; s; c] -> [HDef (n h, PSnapshot, [n s; n c], keeps)]
   | ["gate"; h; s; c] -> [HDef (n h, PGate, [n s; n c], [])]
-  | ["hold"; h; s; _] -> [HDef (n h, PHold, [n s], [])]
+  | ["hold"; h; s; _] | ["hold_lazy"; h; s; _] -> [HDef (n h, PHold, [n s], [])]
   | ["updates"; h; c] -> [HUpdates (n h, n c)]
   | ["value"; h; c] -> [HDef (n h, PValue, [n c], [])]
   | ["map_c"; h; c; f] -> nofun f; [HDef (n h, PMapC, [n c], keeps)]
   | "lift" :: h :: _ :: cs when List.length cs >= 2 -> [HLift (n h, List.map n cs, keeps)]
-  | ["accum"; h; s; _; _] -> [HDef (n h, PAccum, [n s], keeps)]
-  | ["collect"; h; s; _; _; _] -> [HDef (n h, PCollect, [n s], keeps)]
+  | ["accum"; h; s; _; _] | ["accum_lazy"; h; s; _; _] -> [HDef (n h, PAccum, [n s], keeps)]
+  | ["collect"; h; s; _; _; _] | ["collect_lazy"; h; s; _; _; _] -> [HDef (n h, PCollect, [n s], keeps)]
   | ["defer"; h; s] -> [HDef (n h, PDefer, [n s], [])]
   | ["split"; h; s] -> [HDef (n h, PSplit, [n s], [])]
   | ["sloop"; h] -> [HDef (n h, PSLoop, [], [])]
@@ -669,6 +675,8 @@ let hops_of_line (line : string) : hop list =
   | ["clone"; a; b] -> [HClone (n a, n b)]
   | ["drop"; h] -> [HDrop (n h)]
   | ["gc"] -> [HCollect]
+  (* Lazy values are not collector objects; without captured handles (keep:) their thunks own no handle either *)
+  | ("sample_lazy" | "lazy_new" | "force" | "clone_lazy") :: _ -> saw_lazy := true; [HNop]
   | ("send" | "sample" | "{" | "}" | "tnew" | "tclose" | "tdrop" | "post" | "nodes" | "drop_lazies") :: _ -> [HNop]
   | op :: _ -> raise (Unsupported op)
   | [] -> [HNop]
@@ -687,6 +695,7 @@ let heap_view (st : hstate) : string =
 let run_heap_script oc (name, lines) =
   Printf.fprintf oc "# %s\n" name;
   let st = ref hinit and stopped = ref false in
+  saw_lazy := false; saw_keep := false;
   let step op =
     match hstep !st op with
     | Ok s1 -> st := s1
